@@ -7,7 +7,9 @@ from harness.engine import tlc as T
 from harness.engine.core import chunks
 
 SPEC = os.path.join(T.SPECS, "Tokenizer")
-SYM = {"U": "\u00e9"}  # TLC's output encoding mangles non-ASCII: the model uses U, the code sees e-acute
+# TLC's output encoding mangles non-ASCII: the model uses stand-in symbols (opaque 'characters')
+SYM = {"U": "\u00e9", "<VT>": "\x0b", "<FS>": "\x1c", "<NEL>": "\x85", "<NBSP>": "\xa0", "<EMSP>": "\u2003", "<IDSP>": "\u3000"}
+WS_ALL = " \t\n\r\f\x0b\x1c\x85\xa0\u2003\u3000"
 
 
 def chars(s):
@@ -20,6 +22,40 @@ def text(cs):
 
 
 _APP = None
+_DAPP = None
+
+
+def _dapp():
+    """application on the default configuration: help command + help resolver see the raw args too"""
+    global _DAPP
+    if _DAPP is None:
+        from clikit import ConsoleApplication
+        from clikit.api.args.format import Option
+        from clikit.config import DefaultApplicationConfig
+
+        c = DefaultApplicationConfig("app", "1.0")
+        c.set_catch_exceptions(True)
+        c.set_terminate_after_run(False)
+        with c.command("a") as cmd:
+            cmd.set_description("command a")
+            cmd.add_alias("aa")
+            cmd.add_argument("x", 0, "the x")
+            cmd.add_option("opt", "o", Option.REQUIRED_VALUE, "the opt")
+            cmd.add_option("flag", "f", Option.NO_VALUE, "the flag")
+        _DAPP = ConsoleApplication(c)
+    return _DAPP
+
+
+def run_outcome(raw):
+    from clikit.io.input_stream import StringInputStream
+    from clikit.io.output_stream import BufferedOutputStream
+
+    out, err = BufferedOutputStream(), BufferedOutputStream()
+    try:
+        st = _dapp().run(raw, StringInputStream(""), out, err)
+        return json.dumps(["run", st, out.fetch(), err.fetch()])
+    except BaseException as e:  # noqa
+        return json.dumps(["run-exc", type(e).__name__])
 
 
 def _app():
@@ -64,7 +100,7 @@ def outcome(raw):
         return json.dumps(["exc", type(e).__name__, str(e)])
 
 
-def observe(s, intent=None, styles=None, seps=None, lead="", trail=""):
+def observe(s, intent=None, styles=None, seps=None, lead="", trail="", full_run=False):
     """one event for TokenizerTrace"""
     from clikit.args import ArgvArgs, StringArgs
 
@@ -96,6 +132,9 @@ def observe(s, intent=None, styles=None, seps=None, lead="", trail=""):
         ev["argv"] = {"toks": [chars(t) for t in aa.tokens], "opt": [chars(t) for t in aa.option_tokens]}
         ev["outArgv"] = outcome(aa) + ("" if argv == before else "|argv-mutated")
         ev["outStr"] = outcome(sa) if sa is not None else "exc"
+        if full_run:
+            ev["outArgv"] += run_outcome(ArgvArgs(argv))
+            ev["outStr"] += run_outcome(StringArgs(s)) if sa is not None else "exc"
     return ev
 
 
@@ -122,19 +161,19 @@ def run(ctx):
         "strings validated by TokenizerTrace"
     )
     ctx.assumptions += [
-        "whitespace = {SP,TAB} in exhaustive runs, {SP,TAB,LF,CR} in recorded traces (str.isspace() beyond these is not modelled)",
+        "whitespace = {SP,TAB,VT} in exhaustive runs; SP,TAB,LF,CR,FF,VT,FS,NEL,NBSP,EM SPACE,IDEOGRAPHIC SPACE in recorded traces (other str.isspace() characters are not exercised)",
         "expressible tokens: no backslash directly before a quote character or at the end of a token",
         "non-ASCII text is represented by one width-1 symbol",
     ]
     mism = []  # events that differ from the TLC behaviour -> TokenizerTrace decides
     sample_ev = []
 
-    def replay(records, with_intent):
+    def replay(records, with_intent, full_run=False):
         n = 0
         for r in records:
             s = text(r["s"])
             intent = [text(t) for t in r["intent"]] if with_intent else None
-            ev = observe(s, intent)
+            ev = observe(s, intent, full_run=full_run)
             exp_ok = not r["err"]
             same = (
                 ev["obs"]["kind"] == ("ok" if exp_ok else "exc")
@@ -167,30 +206,40 @@ def run(ctx):
     replay(recs, True)
     ctx.sample({"tokens": [text(t) for t in recs[-1]["intent"]], "quoted": text(recs[-1]["s"])})
     ctx.extra["lists_replayed"] = len(recs)
+
+    r = ctx.model(SPEC, "MC_Lists", "MC_Words_%s.cfg" % ctx.tier, name="word-lists-exhaustive")
+    recs = T.emitted(r)
+    if len(recs) < 500:
+        raise T.MachineryError("MC_Words emitted only %d behaviours" % len(recs))
+    replay(recs, True, full_run=True)
+    ctx.sample({"tokens": [text(t) for t in recs[-1]["intent"]], "quoted": text(recs[-1]["s"])})
+    ctx.extra["word_lists_replayed"] = len(recs)
     ctx.exhaustive = True
 
     # ---- code -> spec: seeded random lists and strings, larger than TLC enumerates
-    ws = " \t\n\r"
-    alpha = "ab \t'\"\\-=\u00e9\n"
+    ws = WS_ALL
+    alpha = "ab \t'\"\\-=\u00e9\n\x0b\xa0"
+    words = ["help", "a", "aa", "-h", "--", "x", "--opt", "-f", "-", "--help", "v", "--opt=v"]
     traces, cases = [], []
     nlists = 1500 if quick else 20000
     for _ in range(nlists):
         n = ctx.rng.randint(0, 4)
         toks, styles = [], []
+        wordy = ctx.rng.random() < 0.4
         for _k in range(n):
             while True:
-                t = "".join(ctx.rng.choice(alpha) for _j in range(ctx.rng.randint(0, 5)))
+                t = ctx.rng.choice(words) if wordy else "".join(ctx.rng.choice(alpha) for _j in range(ctx.rng.randint(0, 5)))
                 st = ctx.rng.choice(["sq", "dq", "no"])
                 if expressible(t, st, ws):
                     break
             toks.append(t)
             styles.append(st)
         seps = ["".join(ctx.rng.choice(ws) for _j in range(ctx.rng.randint(1, 2))) for _k in range(max(n - 1, 0))]
-        lead = ctx.rng.choice(["", " ", "\t"])
-        trail = ctx.rng.choice(["", " ", "\n"])
+        lead = ctx.rng.choice(["", " ", "\t", "\x0b", "\u2003"])
+        trail = ctx.rng.choice(["", " ", "\n", "\x0c"])
         s = lead + "".join(quote(t, st) + (seps[k] if k < n - 1 else "") for k, (t, st) in enumerate(zip(toks, styles))) + trail
-        traces.append([observe(s, toks, styles, seps, lead, trail)])
-        cases.append({"kind": "list", "tokens": toks, "styles": styles, "seps": seps, "lead": lead, "trail": trail})
+        traces.append([observe(s, toks, styles, seps, lead, trail, full_run=wordy)])
+        cases.append({"kind": "list", "tokens": toks, "styles": styles, "seps": seps, "lead": lead, "trail": trail, "full_run": wordy})
         ctx.count()
         ctx.nontriv(s)
     nstr = 1500 if quick else 20000
@@ -216,7 +265,7 @@ def replay(ctx, path):
         toks, styles, seps = c["tokens"], c["styles"], c["seps"]
         n = len(toks)
         s = c["lead"] + "".join(quote(t, st) + (seps[k] if k < n - 1 else "") for k, (t, st) in enumerate(zip(toks, styles))) + c["trail"]
-        ev = observe(s, toks, styles, seps, c["lead"], c["trail"])
+        ev = observe(s, toks, styles, seps, c["lead"], c["trail"], full_run=c.get("full_run", False))
     else:
         ev = observe(c.get("s", ""))
     ctx.count()
